@@ -368,6 +368,21 @@ func (fb *fnBounds) postFacts(in ssa.Instruction) []constraint {
 			case "strings.TrimPrefix", "strings.TrimSuffix", "strings.TrimSpace", "strings.TrimLeft", "strings.TrimRight", "strings.Trim":
 				cs = append(cs, geq(fb.lenOf(t.Call.Args[0], t, 0), linVar("len:"+ssaName(t)), callee.Name()+" never lengthens"))
 			case "strings.ToLower", "strings.ToUpper":
+			case "strings.CutSuffix", "strings.CutPrefix":
+				for _, ref := range *t.Referrers() {
+					if ex, ok := ref.(*ssa.Extract); ok && ex.Index == 0 {
+						cs = append(cs, geq(fb.lenOf(t.Call.Args[0], t, 0), linVar("len:"+ssaName(ex)), callee.Name()+" never lengthens"))
+					}
+				}
+			case "strings.Index", "strings.LastIndex", "strings.IndexByte", "strings.IndexRune", "strings.IndexAny":
+				cs = append(cs, geq(linVar(ssaName(t)), linConst(-1), callee.Name()+" result contract"), gt(fb.lenOf(t.Call.Args[0], t, 0), linVar(ssaName(t)), callee.Name()+" result contract"))
+			}
+			if o := callee.Origin(); o != nil && o.Pkg != nil && o.Pkg.Pkg.Path() == "slices" {
+				switch o.Name() {
+				case "IndexFunc", "Index":
+					// -1 ≤ result < len(s)
+					cs = append(cs, geq(linVar(ssaName(t)), linConst(-1), "slices."+o.Name()+" result contract"), gt(fb.lenOf(t.Call.Args[0], t, 0), linVar(ssaName(t)), "slices."+o.Name()+" result contract"))
+				}
 			}
 			return cs
 		}
